@@ -131,7 +131,8 @@ def witness_of(case):
     if o.get("bytes", 1) != 1:
         fl.append("bytes=%d" % o["bytes"])
     if case.get("top"):
-        return "%s=%s | %s" % (case["top"], case.get("v", "n"), ",".join(fl))
+        pre = ("after " + ",".join(case["pre"]) + ": ") if case.get("pre") else ""
+        return "%s%s=%s | %s" % (pre, case["top"], case.get("v", "n"), ",".join(fl))
     return "; ".join("%s %s%s%s=%s" % (f["n"], "".join(PRE[x] for x in f.get("c") or []), f["k"], (" `%s`" % f["t"]) if f["t"] else "", f["v"]) for f in case["f"]) + " | " + ",".join(fl)
 
 
@@ -221,6 +222,27 @@ def gen_cases(ctx):
             if (top.startswith("[]") or top == "BS") and v == "z":
                 continue          # a nil top-level slice is not a struct value (null or [] are both fine)
             cases.append({"f": [], "top": top, "v": v})
+    # type GRAPHS: the histories TLC enumerates over the graph family of Recompose.tla (embedded pointer cycles, mutually
+    # recursive member types, embedded parts that are targets too, same-named embedded type, anonymous types): the last type
+    # of a history is the case, the others are encoded before it in the same fresh process by every encoder under the same
+    # options; every set of related targets is presented in every order. Judged like every other event (Reference,
+    # Agreement): the outcome for a type must not depend on the types the process has seen before.
+    # (both tiers: every single target and every ordered pair / repetition inside a group of related types; the thorough tier
+    # differs in the option masks: one child process per (history, mask))
+    hr = ctx.tlc("RecomposeGen", "RecomposeGen_c15.cfg", workers=1, timeout=900)
+    if hr.error or hr.violated:
+        raise Infra("history generation failed:\n" + hr.out[-2000:])
+    hseen = set()
+    for h in hr.printed("HIST"):
+        k = json.dumps(h["h"])
+        if k not in hseen:
+            hseen.add(k)
+            cases.append({"f": [], "top": h["h"][-1], "v": "n", "pre": h["h"][:-1]})
+            if len(h["h"]) == 1:
+                cases.append({"f": [], "top": h["h"][0], "v": "z"})
+    if len(hseen) < 60:
+        raise Infra("only %d type graph histories generated" % len(hseen))
+    ctx.cov["type_graph_histories"] = len(hseen)
     p = os.path.join(ctx.scratch, "enc_gen_cases.ndjson")
     verif.write_ndjson(p, cases)
     ctx.cov["model_cases_emitted"] = len(cases)
@@ -239,7 +261,9 @@ def main(ctx):
     ctx.cov["distinct_nontrivial"] = len({(f["k"], f["t"], f["v"], i, len(c["f"])) for c in cases for i, f in enumerate(c["f"])})
     ctx.cov["rule"] = ("cases = every struct shape of 1-3 fields TLC (EncodeGen) enumerates over the kind x tag x embedding menu with at "
                        "most one field from the full menu and the others from the neighbour menu, in every order, x value variants "
-                       "(all zero; all non-zero; nil or empty at one position), plus the named library types as top-level values; "
+                       "(all zero; all non-zero; nil or empty at one position), plus the named library types as top-level values, plus the "
+                       "type graph histories TLC enumerates (RecomposeGen: embedded pointer cycles, mutually recursive members, embedded "
+                       "parts that are targets too; each history in a fresh process, the last type is the judged case); "
                        "each is encoded by 11 encoder paths under the option masks of the tier (UseTags, KeyExact, NestEmbed, "
                        "OmitNil, OmitEmpty, Sort, CreateKey/FullTypePath, BytesAs) and every event is judged by TLC "
                        "(TraceEncode: Reference, Agreement, encoding/json, no failure); every distinct JSON text by JsonText. "
